@@ -16,6 +16,12 @@ def spd(rng, d):
     return A.dot(A.T) + d * np.eye(d)
 
 
+def spd_int(rng, d):
+    """an SPD array with an integer dtype"""
+    A = rng.randint(-2, 3, size=(d, d))
+    return A.dot(A.T) + d * np.eye(d, dtype=int)
+
+
 def configs(name, rng, d, n_classes, thorough):
     """documented option values of the estimator (a sample in the quick tier)"""
     out = []
@@ -29,14 +35,16 @@ def configs(name, rng, d, n_classes, thorough):
                     continue
                 p = {'init': init, 'n_components': nc}
                 if init == 'array':
-                    p['init'] = rng.randn(k, d)
+                    p['init'] = rng.randn(k, d) if rng.rand() < 0.7 else rng.randint(-3, 4, size=(k, d)) + np.eye(k, d, dtype=int) * 5
                 out.append(p)
     elif name in ('ITML', 'LSML', 'SDML', 'ITML_Supervised', 'LSML_Supervised', 'SDML_Supervised'):
         for prior in ['identity', 'covariance', 'random', 'array']:
             out.append({'prior': spd(rng, d) if prior == 'array' else prior})
+        out.append({'prior': spd_int(rng, d)})
     elif name in ('MMC', 'MMC_Supervised'):
         for init in ['identity', 'covariance', 'random', 'array']:
             out.append({'init': spd(rng, d) if init == 'array' else init, 'diagonal': False})
+        out.append({'init': spd_int(rng, d), 'diagonal': False})
     elif name == 'LFDA':
         for emb in ['weighted', 'orthonormalized', 'plain']:
             for k in [None, 1, 2, d - 1, d, d + 2]:
